@@ -29,7 +29,7 @@ RULE = (
     "directory of >= 2 children, and (>= 2 formats or c4 requested); distinct by canonical scenario hash."
 )
 ASSUMPTIONS = ["no hash collisions among the generated inputs", "digest texts are sorted as text (the order the definition's 'sorted' refers to)"]
-BUDGET = {"quick": (300, 4), "thorough": (15000, 16)}
+BUDGET = {"quick": (300, 4), "thorough": (90000, 16)}
 REQUIRED = ["rename_file", "rename_dir", "edit", "c4", "multi_format", "empty_dir", "ignored_entry", "permuted", "nested_history"]
 
 
